@@ -23,6 +23,35 @@ snoc, nil = PathS.psnoc, PathS.pnil
 SL = StrList.sort()
 
 
+sg_ = z3.Const('sg!t', PathS)
+nu_ = z3.Const('nu!t', PathS)
+mu_ = z3.Const('mu!t', PathS)
+i_ = z3.Int('i!t')
+j_ = z3.Int('j!t')
+t2_ = z3.Int('t2!t')
+
+
+def anc(a, b):
+  return sym.ufun('anc', PathS, PathS, sym.BoolS)(a, b)
+
+
+def anc_definition():
+  return z3.And(
+      sym.forall([nu_], anc(nu_, nil) == (nu_ == nil), patterns=[anc(nu_, nil)]),
+      sym.forall([nu_, sg_, c_], anc(nu_, snoc(sg_, c_)) ==
+                 z3.Or(nu_ == snoc(sg_, c_), anc(nu_, sg_)),
+                 patterns=[anc(nu_, snoc(sg_, c_))]))
+
+
+def depth(p):
+  return sym.ufun('depth', PathS, sym.IntS)(p)
+
+
+def depth_definition():
+  return z3.And(depth(nil) == 0, sym.forall(
+      [sg_, c_], depth(snoc(sg_, c_)) == depth(sg_) + 1, patterns=[depth(snoc(sg_, c_))]))
+
+
 def rp(Lbox, k):
   return sym.ufun('rpath', SL, sym.IntS, PathS)(Lbox, k)
 
@@ -49,6 +78,31 @@ def comps_injective():
       patterns=[[comps(s_), comps(t_)]])
 
 
+def fruit(p):
+  """Trigger-control marker, defined to be true everywhere (fruit_definition).  The clause
+  `fruitful` below is only instantiated for nodes p for which the term fruit(p) exists:
+  instantiating it creates a witness terminal, which is alive, which would instantiate it
+  again (a matching loop)."""
+  return sym.ufun('fruit', PathS, sym.BoolS)(p)
+
+
+def fruit_definition():
+  return sym.forall([pi_], fruit(pi_), patterns=[fruit(pi_)])
+
+
+def fruitful(alive, term, except_path=None, extra=None, exempt=None):
+  """Every dict of the tree (but the root) leads to a stored name."""
+  guard = [fruit(pi_), alive[pi_], pi_ != nil]
+  if except_path is not None:
+    guard.append(pi_ != except_path)
+  if exempt is not None:
+    guard.append(z3.Not(exempt(pi_)))
+  body = z3.Exists([sg_], z3.And(term[sg_], anc(pi_, sg_)))
+  if extra is not None:
+    body = z3.Or(body, extra(pi_))
+  return sym.forall([pi_], z3.Implies(z3.And(*guard), body), patterns=[[alive[pi_], fruit(pi_)]])
+
+
 def wf_parts(sm, except_path=None):
   alive, term, tval, tnone = T(sm)
   m = M(sm)
@@ -67,7 +121,14 @@ def wf_parts(sm, except_path=None):
           valid(s_), term[comps(s_)], tval[comps(s_)] == s_)), patterns=[m.dom[s_]])),
       ('pruned', sym.forall([pi_], z3.Implies(pruned_guard, z3.Or(
           term[pi_], z3.Exists([c_], alive[snoc(pi_, c_)]))), patterns=[alive[pi_]])),
+      # every dict of the tree leads to a stored name (the tree is finite and pruned): needed for
+      # "no shorter suffix resolves back" in minimal_selector
+      ('fruitful', fruitful(alive, term, except_path=except_path)),
   ]
+
+
+WF_LABELS = ['root_alive', 'alive_is_prefix_closed', 'terminals_are_stored_names',
+             'stored_names_are_terminals', 'pruned', 'fruitful']
 
 
 def WF(sm, except_path=None):
@@ -106,8 +167,10 @@ def _attach_wf(name):
   c.skip_proof = None
   c.assume_entry('representation_invariant', lambda x: WF(x.self_old),
                  'class invariant of SelectorMap: established by the constructor, preserved by '
-                 'clear/copy/__setitem__ (proved) and pop (not yet proved: bounded bC08); the '
-                 'private fields are touched only by the class\'s own methods (AST obligation)')
+                 'clear/copy/__setitem__/pop (all proved); the private fields are touched only '
+                 'by the class\'s own methods (AST obligation)')
+  c.assume_entry('definition_of_the_trigger_marker', lambda x: fruit_definition(),
+                 'definition: fruit(p) is true for every p (a trigger-control marker, no content)')
   c.assume_entry('names_are_determined_by_their_components', lambda x: comps_injective(),
                  "string fact: '.'.join(s.split('.')) == s, so a dotted name is determined by "
                  'its components')
@@ -127,6 +190,8 @@ c.ensure('original_untouched', lambda x: SelTree.box(x.self_new.fields['_selecto
 # ---- __setitem__ ------------------------------------------------------------------------------
 c = _attach_wf('__setitem__')
 c.local_kinds = {'selector_components': StrList}
+c.assume_entry('definition_of_ancestor', lambda x: anc_definition(),
+               'definition of the spec function anc by structural recursion')
 for _i, (_lbl, _) in enumerate(wf_parts(SelectorMap.fresh('dummy'))):
   c.ensure('representation_invariant_after/' + _lbl,
            (lambda i: lambda x: wf_parts(x.self_new)[i][1])(_i))
@@ -149,6 +214,11 @@ def _inv_cursor(x, k):
 def _inv_wf(i):
   def f(x, k):
     node = tree.as_node(x.env.node)
+    if WF_LABELS[i] == 'fruitful':
+      # the dicts created by this walk lead nowhere yet: they are on the path of the new name
+      alive, term, tval, tnone = T(x.env.self)
+      L = _L(x)
+      return fruitful(alive, term, extra=lambda p: anc(p, rp(StrList.box(L), L.len)))
     return wf_parts(x.env.self, except_path=node.path)[i][1]
   return f
 
@@ -161,9 +231,25 @@ def _inv_frame(x, k):
                 sym.forall([pi_], z3.Implies(alive0[pi_], alive[pi_]), patterns=[alive0[pi_]]))
 
 
+def prefix_lemma(x, L):
+  """anc(rp(L, j), rp(L, n)) for 0 <= j <= n  (integer induction, downwards)."""
+  n = L.len
+  Lb = StrList.box(L)
+  j0 = x.path.fresh_const('ind_j', sym.IntS)
+  q = x.path.qual + '/lemma/prefix_paths_are_ancestors'
+  P = lambda j: anc(rp(Lb, j), rp(Lb, n))
+  x.path.assume(rp(Lb, j0 + 1) == snoc(rp(Lb, j0), L.arr[L.len - (j0 + 1)]))
+  x.path.oblige(q + '/base', P(n))
+  x.path.oblige(q + '/step', z3.Implies(z3.And(0 <= j0, j0 < n, P(j0 + 1)), P(j0)))
+  x.path.assume(sym.forall([j_], z3.Implies(z3.And(0 <= j_, j_ <= n), P(j_)),
+                           patterns=[rp(Lb, j_)]))
+
+
 def _setitem_before(ex, x):
   L = _L(x)
   x.path.assume(rp(StrList.box(L), z3.IntVal(0)) == nil)        # definition of rp
+  lemmas(x, T(x.env.self)[0], only=['parent_of_ancestor'])
+  prefix_lemma(x, L)
   # components of a valid selector are never the terminal key (regex fact, assumed)
   i = z3.Int('i!sc')
   x.path.assume(sym.forall([i], z3.Implies(z3.And(0 <= i, i < L.len),
@@ -193,35 +279,6 @@ c.loop(('selector_components[::-1]', None),
 # dsuffix(p, s)  <=>  anc(comps(p), comps(s)):  the path of p is an ancestor-or-equal of the
 # path of s.  anc is defined by structural recursion on its second argument (A1-A3);
 # everything else about it is a LEMMA proved by structural induction (two VCs each).
-sg_ = z3.Const('sg!t', PathS)
-nu_ = z3.Const('nu!t', PathS)
-mu_ = z3.Const('mu!t', PathS)
-i_ = z3.Int('i!t')
-j_ = z3.Int('j!t')
-t2_ = z3.Int('t2!t')
-
-
-def anc(a, b):
-  return sym.ufun('anc', PathS, PathS, sym.BoolS)(a, b)
-
-
-def anc_definition():
-  return z3.And(
-      sym.forall([nu_], anc(nu_, nil) == (nu_ == nil), patterns=[anc(nu_, nil)]),
-      sym.forall([nu_, sg_, c_], anc(nu_, snoc(sg_, c_)) ==
-                 z3.Or(nu_ == snoc(sg_, c_), anc(nu_, sg_)),
-                 patterns=[anc(nu_, snoc(sg_, c_))]))
-
-
-def depth(p):
-  return sym.ufun('depth', PathS, sym.IntS)(p)
-
-
-def depth_definition():
-  return z3.And(depth(nil) == 0, sym.forall(
-      [sg_, c_], depth(snoc(sg_, c_)) == depth(sg_) + 1, patterns=[depth(snoc(sg_, c_))]))
-
-
 def dsuffix_definition():
   return sym.forall([s_, t_], dsuffix(s_, t_) == anc(comps(s_), comps(t_)),
                     patterns=[dsuffix(s_, t_)])
@@ -243,8 +300,14 @@ def induct(x, name, P, flat):
   x.path.assume(flat)
 
 
-def lemmas(x, alive):
+_induct_global = induct
+
+
+def lemmas(x, alive, only=None):
   """anc lemmas used by the walk and the DFS (each proved by induction, then assumed)."""
+  def induct(x, name, P, flat):
+    if only is None or name in only:
+      _induct_global(x, name, P, flat)
   induct(x, 'root_is_ancestor_of_all', lambda sg: anc(nil, sg),
          sym.forall([sg_], anc(nil, sg_), patterns=[anc(nil, sg_)]))
   induct(x, 'parent_of_ancestor', lambda sg: sym.forall(
@@ -272,6 +335,13 @@ def lemmas(x, alive):
       z3.And(sym.forall([sg_], depth(sg_) >= 0, patterns=[depth(sg_)]),
              sym.forall([sg_, nu_], z3.Implies(anc(nu_, sg_), depth(nu_) <= depth(sg_)),
                         patterns=[anc(nu_, sg_)])))
+  if only is not None and 'ancestor_is_transitive' in only:
+    induct(x, 'ancestor_is_transitive', lambda sg: sym.forall(
+        [nu_, mu_], z3.Implies(z3.And(anc(nu_, mu_), anc(mu_, sg)), anc(nu_, sg)),
+        patterns=[[anc(nu_, mu_), anc(mu_, sg)]]),
+        sym.forall([sg_, nu_, mu_], z3.Implies(z3.And(anc(nu_, mu_), anc(mu_, sg_)),
+                                               anc(nu_, sg_)),
+                   patterns=[[anc(nu_, mu_), anc(mu_, sg_)]]))
   induct(x, 'children_subtrees_disjoint', lambda sg: sym.forall(
       [nu_, c_, t_], z3.Implies(z3.And(anc(snoc(nu_, c_), sg), anc(snoc(nu_, t_), sg)),
                                 c_ == t_),
@@ -551,6 +621,19 @@ def _pop_before1(ex, x):
   x.path.oblige(q2 + '/base', D(z3.IntVal(0)))
   x.path.oblige(q2 + '/step', z3.Implies(z3.And(0 <= j1, D(j1)), D(j1 + 1)))
   x.path.assume(sym.forall([j_], z3.Implies(0 <= j_, D(j_)), patterns=[rp(Lb, j_)]))
+  # ancestors of a dict on the path of the name are themselves on that path
+  j2 = x.path.fresh_const('ind_j', sym.IntS)
+  q3 = x.path.qual + '/lemma/ancestors_of_path_nodes_are_path_nodes'
+  A = lambda j: sym.forall([nu_], z3.Implies(anc(nu_, rp(Lb, j)), z3.And(
+      nu_ == rp(Lb, depth(nu_)), 0 <= depth(nu_), depth(nu_) <= j)),
+      patterns=[anc(nu_, rp(Lb, j))])
+  x.path.assume(rp(Lb, j2 + 1) == snoc(rp(Lb, j2), L.arr[L.len - (j2 + 1)]))
+  x.path.oblige(q3 + '/base', A(z3.IntVal(0)))
+  x.path.oblige(q3 + '/step', z3.Implies(z3.And(0 <= j2, j2 < n, A(j2)), A(j2 + 1)))
+  x.path.assume(sym.forall([j_, nu_], z3.Implies(
+      z3.And(0 <= j_, j_ <= n, anc(nu_, rp(Lb, j_))),
+      z3.And(nu_ == rp(Lb, depth(nu_)), 0 <= depth(nu_), depth(nu_) <= j_)),
+      patterns=[anc(nu_, rp(Lb, j_))]))
 
 
 def _pop_inv1(x, k):
@@ -628,13 +711,17 @@ def _pop_inv2(x, m):
       ('pruned_except_frontier', sym.forall([pi_], z3.Implies(
           z3.And(alive[pi_], pi_ != nil, z3.Or(m == 0, pi_ != frontier)),
           z3.Or(term[pi_], z3.Exists([c_], alive[snoc(pi_, c_)]))), patterns=[alive[pi_]])),
+      # dicts off the path, and dicts on it that have been examined and kept, lead to a name
+      ('fruitful_except_the_path_above_the_frontier', fruitful(
+          alive, term, exempt=lambda p: z3.And(
+              p == rp(Lb, depth(p)), 0 <= depth(p), depth(p) <= n, depth(p) <= n - m + 1))),
   ]
   return parts
 
 
 POP2_LABELS = ['map', 'lists', 'terminals', 'alive_shrinks_only_on_the_path',
                'terminals_are_alive', 'path_above_frontier_alive', 'closed',
-               'pruned_except_frontier']
+               'pruned_except_frontier', 'fruitful_except_the_path_above_the_frontier']
 
 
 def _pop_before2(ex, x):
@@ -651,10 +738,28 @@ def _pop_step2(ex, x, m):
     x.path.assume(z3.Implies(idx >= 1, rp(Lb, idx) == snoc(rp(Lb, idx - 1), L.arr[L.len - idx])))
 
 
+def _pop_ghost2(ex, x, m):
+  """Ghost code after an iteration of the pruning loop: if the examined dict was kept because
+  it still has a child, name one such child (choice) and mark it, so that the invariant can be
+  instantiated for it; ancestor-or-equal is reflexive."""
+  L = _Ls(x)
+  Lb = StrList.box(L)
+  n = L.len
+  alive, term, tval, tnone = T(x.env.self)
+  fr = rp(Lb, n - m + 1)
+  cw = x.path.fresh_const('kept_child', sym.Str)
+  x.path.assume(z3.Implies(z3.Exists([c_], alive[snoc(fr, c_)]), alive[snoc(fr, cw)]))
+  x.path.assume(fruit(snoc(fr, cw)))
+  h = anc(fr, fr)
+  x.path.oblige(x.path.qual + '/hint/ancestor_or_equal_is_reflexive', h)
+  x.path.assume(h)
+
+
 c.loop(('zip(reversed(selector_components), reversed(nodes))', None),
        [Clause('prune/' + lbl, (lambda i: lambda x, m: _pop_inv2(x, m)[i][1])(ii))
         for ii, lbl in enumerate(POP2_LABELS)],
-       havoc=['self._selector_tree'], before=_pop_before2, body_start=_pop_step2)
+       havoc=['self._selector_tree'], before=_pop_before2, body_start=_pop_step2,
+       ghost_step=_pop_ghost2)
 
 
 # ==== minimal_selector ============================================================================
@@ -674,6 +779,9 @@ c.assume_entry('definition_of_depth', lambda x: depth_definition(),
 c.ensure('tree_untouched', lambda x: z3.And(
     SelTree.box(x.self_new.fields['_selector_tree']) ==
     SelTree.box(x.self_old.fields['_selector_tree']), same_map(x.self_new, x.self_old)))
+c.assume_entry('names_have_a_component', lambda x: sym.forall(
+    [s_], comps(s_) != nil, patterns=[comps(s_)]),
+    "string fact: s.split('.') is never empty, so the path of a name is not the root")
 
 
 def _only(x, Lb, L, j):
@@ -682,6 +790,42 @@ def _only(x, Lb, L, j):
   return z3.And(z3.Not(term[rp(Lb, j)]), sym.forall(
       [c_], z3.Implies(alive[snoc(rp(Lb, j), c_)], c_ == L.arr[L.len - 1 - j]),
       patterns=[alive[snoc(rp(Lb, j), c_)]]))
+
+
+def _big(x, Lb, L, j):
+  """The dict at depth j on the path holds more than the next component of the name."""
+  alive, term, tval, tnone = T(x.env.self)
+  return z3.Or(term[rp(Lb, j)], z3.Exists(
+      [c_], z3.And(c_ != L.arr[L.len - 1 - j], alive[snoc(rp(Lb, j), c_)])))
+
+
+def _min_inv_big(x, k):
+  """The dict just before the recorded run (or just before the cursor, if no run is open)
+  holds more than one entry."""
+  L = _Ls(x)
+  Lb = StrList.box(L)
+  st = x.env.start
+  if isinstance(st, sym.VNone):
+    return z3.Implies(k >= 1, _big(x, Lb, L, k - 1))
+  if not isinstance(st, sym.VOpt):
+    st = sym.VOpt(KOpt(KInt), z3.BoolVal(False), st)
+  k0 = -st.inner.e
+  return z3.If(st.is_none, z3.Implies(k >= 1, _big(x, Lb, L, k - 1)),
+               z3.Implies(k0 >= 2, _big(x, Lb, L, k0 - 1)))
+
+
+def _min_ghost(ex, x, k):
+  """Ghost code after an iteration: name the first two entries of the dict whose length was
+  just taken (hint: proved, then assumed), so that 'more than one entry' has its witnesses."""
+  lc = x.ghost.get('last_len_children')
+  if lc is None:
+    return
+  nd, n, keys, idx = lc
+  alive = T(x.env.self)[0]
+  h = z3.And(z3.Implies(n >= 1, alive[snoc(nd.path, keys[0])]),
+             z3.Implies(n >= 2, z3.And(alive[snoc(nd.path, keys[1])], keys[0] != keys[1])))
+  x.path.oblige(x.path.qual + '/hint/first_two_entries_of_the_examined_dict', h)
+  x.path.assume(h)
 
 
 def _min_inv_run(x, k):
@@ -701,6 +845,7 @@ def _min_inv_run(x, k):
 
 def _min_before(ex, x):
   _pop_before1(ex, x)
+  lemmas(x, T(x.env.self)[0], only=['ancestor_is_transitive'])
   L = _Ls(x)
   Lb = StrList.box(L)
   alive, term, tval, tnone = T(x.env.self)
@@ -715,8 +860,9 @@ c.loop(('enumerate(reversed(selector_components))', None),
        [Clause('cursor_is_at_the_path_of_the_consumed_components', lambda x, k: z3.And(
            tree.as_node(x.env.node).path == rp(StrList.box(_Ls(x)), k),
            T(x.env.self)[0][tree.as_node(x.env.node).path])),
-        Clause('dicts_since_start_hold_one_entry_each', _min_inv_run)],
-       before=_min_before, body_start=_pop_step1)
+        Clause('dicts_since_start_hold_one_entry_each', _min_inv_run),
+        Clause('dict_before_the_run_holds_more_than_one_entry', _min_inv_big)],
+       before=_min_before, body_start=_pop_step1, ghost_step=_min_ghost)
 
 
 def join_split_facts(x, r, X):
@@ -724,7 +870,7 @@ def join_split_facts(x, r, X):
   for the list X being joined into r: splitting r gives back the components of X."""
   R = split_dot(r)
   x.path.assume(z3.And(R.len == X.len, sym.forall(
-      [j_], z3.Implies(z3.And(0 <= j_, j_ < X.len), R.arr[j_] == X.at(j_).e),
+      [j_], z3.Implies(z3.And(0 <= j_, j_ < X.len), R.arr[j_] == z3.Select(X.arr, j_)),
       patterns=[R.arr[j_]])))
   return R
 
@@ -736,8 +882,11 @@ def _min_at_return(ex, x):
   n = L.len
   s = x.a.complete_selector.e
   r = x.result.e
+  _min_ghost(ex, x, None)       # witnesses for the entries of the last dict
   if r.eq(s):
-    return                      # `return complete_selector`: nothing to show beyond dom[s]
+    # `return complete_selector`: the last dict holds the name and at least one longer one
+    _min_witness(x, L, Lb, n, None)
+    return
   st = x.env.start
   alive, term, tval, tnone = T(x.env.self)
   q = x.path.qual
@@ -770,9 +919,36 @@ def _min_at_return(ex, x):
                                                anc(rp(Lb, n), sg_)),
                              patterns=[[term[sg_], anc(rp(Lb, k0), sg_)]]))
     x.path.assume(expand_children(rp(Lb, n)))
+    _min_witness(x, L, Lb, k0 - 1, L.arr[L.len - 1 - (k0 - 1)])
   else:
     # start is None: the whole name is returned
     x.path.assume(world.str_join(sym.str_lit('.'), L) == s)
+    _min_witness(x, L, Lb, n - 1, L.arr[0])
+
+
+def _min_witness(x, L, Lb, d, comp):
+  """Ghost code for minimality.  The dict at depth d on the path (the one just before the run,
+  or the last one when the whole name is returned) holds an entry other than the component
+  `comp` of the name (None: any entry will do): name one such child (choice) and mark it, so
+  that `fruitful` yields the stored name it leads to; and show that every shorter prefix of the
+  path is an ancestor of that dict (induction, downwards)."""
+  alive, term, tval, tnone = T(x.env.self)
+  q = x.path.qual
+  cw = x.path.fresh_const('other_child', sym.Str)
+  B = rp(Lb, d)
+  other = (lambda c: alive[snoc(B, c)]) if comp is None else \
+      (lambda c: z3.And(c != comp, alive[snoc(B, c)]))
+  x.path.assume(z3.Implies(z3.Exists([c_], other(c_)), other(cw)))
+  x.path.assume(fruit(snoc(B, cw)))
+  x.path.assume(z3.Implies(d >= 0, rp(Lb, d + 1) == snoc(B, L.arr[L.len - 1 - d])))
+  j3 = x.path.fresh_const('ind_j', sym.IntS)
+  x.path.assume(rp(Lb, j3 + 1) == snoc(rp(Lb, j3), L.arr[L.len - (j3 + 1)]))
+  P2 = lambda j: anc(rp(Lb, j), B)
+  x.path.oblige(q + '/lemma/prefixes_are_ancestors_of_the_witness_dict/base', P2(d))
+  x.path.oblige(q + '/lemma/prefixes_are_ancestors_of_the_witness_dict/step',
+                z3.Implies(z3.And(0 <= j3, j3 < d, P2(j3 + 1)), P2(j3)))
+  x.path.assume(sym.forall([j_], z3.Implies(z3.And(0 <= j_, j_ <= d), P2(j_)),
+                           patterns=[rp(Lb, j_)]))
 
 
 c.at_return = _min_at_return
